@@ -31,11 +31,20 @@ func genBigTable(t *rapid.T) gen.Table {
 		tb.PK = []int{}
 	}
 	n := rapid.IntRange(1, 5).Draw(t, "nrows")
+	// a block of far fewer than 255 rows that is larger than 1 MiB / 2 MiB
+	wide := rapid.IntRange(0, 7).Draw(t, "wide") == 0
+	if wide {
+		n = rapid.SampledFrom([]int{17, 18, 33, 40}).Draw(t, "nrowsWide")
+	}
 	for i := 0; i < n; i++ {
 		row := make([]gen.Cell, ncols)
 		for c := range row {
 			if c == pkc {
 				row[c] = gen.Cell(fmt.Sprintf("key%d", rapid.IntRange(0, 6).Draw(t, "key")))
+				if wide {
+					row[c] = gen.Cell(fmt.Sprintf("key%03d", (i*7)%n))
+					continue
+				}
 				if rapid.IntRange(0, 5).Draw(t, "bigkey") == 0 {
 					row[c] = gen.Cell(strings.Repeat("K", rapid.SampledFrom(bigSizes).Draw(t, "ksz")) + string(row[c]))
 					if len(row[c]) > 65535 {
@@ -45,6 +54,9 @@ func genBigTable(t *rapid.T) gen.Table {
 				continue
 			}
 			sz := rapid.SampledFrom(bigSizes).Draw(t, "sz")
+			if wide && c == (pkc+1)%ncols {
+				sz = 65535
+			}
 			unit := rapid.SampledFrom([]string{"x", "ab", "\xff", "q\n"}).Draw(t, "unit")
 			row[c] = gen.Cell(strings.Repeat(unit, sz/len(unit)+1)[:sz])
 		}
